@@ -41,3 +41,76 @@ def run_chunk(args):
         import shutil
         shutil.rmtree(d, ignore_errors=True)
     return out
+
+
+def main():
+    """script mode: {"progs": [...], "legacy": bool} on stdin; one outcome per line on stdout, flushed"""
+    import json
+    job = json.load(sys.stdin)
+    sys.path.insert(0, "/verif/lib")
+    from vlib import core
+    core.setup_impl_path()
+    from vlib import impl
+    from ckl.values import StringInput
+    d = tempfile.mkdtemp(prefix="c13_", dir="/verif/.work")
+    os.chdir(d)
+    os.environ["HOME"] = d
+    real_out = os.fdopen(os.dup(1), "w")
+    I = impl.new_interpreter(False, job["legacy"])
+    try:
+        for p in job["progs"]:
+            I.environment = I.base_environment.newEnv()
+            I.setStandardOutput(io.StringIO())
+            I.setStandardInput(StringInput(""))
+            try:
+                r = impl.run_src(I, p, seconds=2.0)
+            except BaseException as e:
+                r = ("host", type(e).__name__, str(e)[:100])
+            if r[0] == "host":
+                o = "host:" + r[1]
+            elif r[0] == "err":
+                o = "err" if r[1] != "(uncanon)" else "err-uncanon"
+            else:
+                o = r[0]
+            real_out.write(o + "\n")
+            real_out.flush()
+            if r[0] == "timeout":
+                I = impl.new_interpreter(False, job["legacy"])
+    finally:
+        os.chdir("/verif")
+        import shutil
+        shutil.rmtree(d, ignore_errors=True)
+
+
+def run_robust(progs, legacy, hard_timeout=None):
+    """parent side: run the programs in worker subprocesses; a worker that dies or hangs identifies the
+    program it was running (outcome 'crash' / 'hang') and the rest continues in a new worker"""
+    import json
+    import subprocess
+    out = []
+    rest = list(progs)
+    while rest:
+        budget = hard_timeout or (30 + 0.05 * len(rest))
+        try:
+            p = subprocess.run([sys.executable, os.path.abspath(__file__)], input=json.dumps({"progs": rest, "legacy": legacy}),
+                               capture_output=True, text=True, timeout=budget)
+            lines = p.stdout.split("\n")[:-1] if p.stdout.endswith("\n") else p.stdout.split("\n")
+            lines = [l for l in lines if l]
+            died = p.returncode != 0 or len(lines) < len(rest)
+            tag = "crash"
+        except subprocess.TimeoutExpired as e:
+            so = e.stdout.decode() if isinstance(e.stdout, bytes) else (e.stdout or "")
+            lines = [l for l in so.split("\n") if l]
+            died = True
+            tag = "hang"
+        out += lines[:len(rest)]
+        if died and len(lines) < len(rest):
+            out.append(tag)
+            rest = rest[len(lines) + 1:]
+        else:
+            rest = []
+    return out
+
+
+if __name__ == "__main__":
+    main()
